@@ -90,8 +90,8 @@ func init() {
 		},
 		{
 			ID:          "C03",
-			Rules:       []RuleUse{{Rule: "R-GATE", Bodies: []string{"v5", "codec"}, KeyHas: []string{"CreateMergePatch", "sink "}}, {Rule: "R-NIL", Bodies: []string{"v5"}, KeyHas: []string{"createArrayMergePatch", "createObjectMergePatch"}}},
-			Explanation: "Decided for the v5 body: R-GATE (malformed input to CreateMergePatch is rejected before the validity-assuming parse), R-NIL over the create*MergePatch functions.",
+			Rules:       []RuleUse{{Rule: "R-GATE", Bodies: []string{"v5", "codec"}, KeyHas: []string{"CreateMergePatch", "sink "}}, {Rule: "R-NIL", Bodies: []string{"v5"}, KeyHas: []string{"createArrayMergePatch", "createObjectMergePatch"}}, use("R-NUM", "v5", "codec"), {Rule: "R-POOLINIT", Bodies: []string{"codec"}, KeyHas: []string{"useNumber"}}, {Rule: "R-MAPORDER", Bodies: []string{"v5"}, KeyHas: []string{"getDiff", "matchesValue"}}},
+			Explanation: "Decided for the v5 body: R-GATE (malformed input to CreateMergePatch is rejected before the validity-assuming parse), R-NIL over the create*MergePatch functions, R-NUM + R-POOLINIT/useNumber (numbers are decoded as literals, compared only by literal equality and written back unchanged — 'number literals are carried over unchanged'; two different literals can never compare equal through a machine number type), R-MAPORDER (the diff's map ranges have no order-sensitive effect).",
 			NotDecided:  "the round-trip law MergePatch(A, P) = B and minimality (value-level); deletion-as-null completeness.",
 			Trusted:     commonTrusted, Assumptions: commonAssumptions,
 		},
@@ -103,9 +103,16 @@ func init() {
 			Trusted:     commonTrusted, Assumptions: commonAssumptions,
 		},
 		{
+			ID:          "C05",
+			Rules:       []RuleUse{use("R-KEYS", "v5"), use("R-MAPORDER", "v5"), use("R-KEYORDER", "codec"), use("R-NUM", "v5", "codec"), {Rule: "R-POOLINIT", Bodies: []string{"codec"}, KeyHas: []string{"useNumber"}}},
+			Explanation: "Decided for the v5 body and the codec: R-KEYS (the ordered-object invariant: every insert into obj is paired with a membership-scan-guarded append of the same key to keys and vice versa, every delete with the removal of the scanned slot and vice versa, whole-map stores with a keys store, the decoder fill with its own key list; a replaced member keeps its slot — no remove followed by re-creation of the same key; no loop over keys rewrites keys; the emitter ranges over keys and emits obj[k], never ranging over the map; inserts happen under obj != nil), R-KEYORDER (the decoder records each key once per member, unconditionally, before the value, in a call-local list published once), R-NUM (number literals are never parsed, converted or reformatted: convertNumber returns the literal, the encoder writes it back, unparsed nodes re-emit raw bytes, Numbers are compared only by literal equality), R-POOLINIT (useNumber is forced in every decoder entry point), R-MAPORDER (no order-sensitive effect under a map range on the Apply/CreateMergePatch/Equal paths).",
+			NotDecided:  "byte-exact fidelity of every literal through compact beyond the escaping substitutions; string value preservation through unquote/quote (C17's domain); the order in which MergePatch appends several new members (map iteration order, allowed by the property as worded).",
+			Trusted:     commonTrusted, Assumptions: commonAssumptions,
+		},
+		{
 			ID:          "C06",
-			Rules:       []RuleUse{{Rule: "R-GATE", Bodies: []string{"v5", "codec"}, KeyHas: []string{"Equal", "sink "}}, {Rule: "R-NIL", Bodies: []string{"v5"}, KeyHas: []string{"Equal", ".equal", "tryDoc", "tryAry", "compact", "isNull", "nextByte"}}, {Rule: "R-TYPESTATE", Bodies: []string{"v5"}, KeyHas: []string{".equal", "tryDoc", "tryAry"}}, {Rule: "R-RAW", Bodies: []string{"v5"}, KeyHas: []string{"compact", "tryDoc", "tryAry", "nextByte", "newLazyNode"}}, {Rule: "R-STALERAW", Bodies: []string{"v5"}, KeyHas: []string{".equal", "isNull", "compact", "tryDoc", "tryAry"}}},
-			Explanation: "Decided for the v5 body: R-GATE on both parameters of Equal with the invalid edge returning false, R-NIL + R-TYPESTATE + R-RAW + R-STALERAW over Equal, (*lazyNode).equal, tryDoc, tryAry, compact, isNull (Equal is total: null roots, nulls inside arrays and as members, an array against null never dereference a nil node; comparison never re-reads stale bytes of a parsed node).",
+			Rules:       []RuleUse{{Rule: "R-GATE", Bodies: []string{"v5", "codec"}, KeyHas: []string{"Equal", "sink "}}, {Rule: "R-NIL", Bodies: []string{"v5"}, KeyHas: []string{"Equal", ".equal", "tryDoc", "tryAry", "compact", "isNull", "nextByte"}}, {Rule: "R-TYPESTATE", Bodies: []string{"v5"}, KeyHas: []string{".equal", "tryDoc", "tryAry"}}, {Rule: "R-RAW", Bodies: []string{"v5"}, KeyHas: []string{"compact", "tryDoc", "tryAry", "nextByte", "newLazyNode"}}, {Rule: "R-STALERAW", Bodies: []string{"v5"}, KeyHas: []string{".equal", "isNull", "compact", "tryDoc", "tryAry"}}, {Rule: "R-NUM", Bodies: []string{"v5"}, KeyHas: []string{"never parsed"}}, {Rule: "R-MAPORDER", Bodies: []string{"v5"}, KeyHas: []string{".equal"}}},
+			Explanation: "Decided for the v5 body: R-GATE on both parameters of Equal with the invalid edge returning false, R-NIL + R-TYPESTATE + R-RAW + R-STALERAW over Equal, (*lazyNode).equal, tryDoc, tryAry, compact, isNull (Equal is total: null roots, nulls inside arrays and as members, an array against null never dereference a nil node; comparison never re-reads stale bytes of a parsed node), R-NUM (no numeric parsing anywhere in the library: numbers are compared as literals, so distinct literals are never equal), R-MAPORDER (the member loop of equal has no order-sensitive effect).",
 			NotDecided:  "reflexivity/symmetry/transitivity and agreement with an independent deep comparison (value-level); string comparison after unescaping.",
 			Trusted:     commonTrusted, Assumptions: commonAssumptions,
 		},
@@ -174,8 +181,8 @@ func init() {
 		},
 		{
 			ID:          "C17",
-			Rules:       []RuleUse{use("R-POOL", "codec"), use("R-POOLINIT", "codec"), {Rule: "R-EFFECT", Bodies: []string{"codec"}}, {Rule: "R-GLOBALS", Bodies: []string{"codec"}}},
-			Explanation: "Decided for the fork-added machinery of the embedded codec: R-POOL + R-POOLINIT (the pooled decodeState/encodeState/scanner are transparent: never used after Put, never aliased by a result, every field a recycled state can expose is rewritten first — data, off, savedError, opcode, useNumber, the scanner's step/err/endTop/parseState/bytes, the encoder's buffer and ptrLevel — with reviewed idioms for errorContext, disallowUnknownFields, lastKeys, ptrSeen), R-EFFECT + R-GLOBALS on the codec (no write into caller-visible byte slices; tables such as safeSet/htmlSafeSet/hex are immutable).",
+			Rules:       []RuleUse{use("R-POOL", "codec"), use("R-POOLINIT", "codec"), use("R-KEYORDER", "codec"), use("R-NUM", "codec"), {Rule: "R-EFFECT", Bodies: []string{"codec"}}, {Rule: "R-GLOBALS", Bodies: []string{"codec"}}},
+			Explanation: "Decided for the fork-added machinery of the embedded codec: R-POOL + R-POOLINIT (the pooled decodeState/encodeState/scanner are transparent: never used after Put, never aliased by a result, every field a recycled state can expose is rewritten first — data, off, savedError, opcode, useNumber, the scanner's step/err/endTop/parseState/bytes, the encoder's buffer and ptrLevel — with reviewed idioms for errorContext, disallowUnknownFields, lastKeys, ptrSeen), R-KEYORDER (the key list reported for an object is its member names in document order: one unconditional append per member, before the value, in a call-local list), R-NUM (numbers keep their literal through decode and encode), R-EFFECT + R-GLOBALS on the codec (no write into caller-visible byte slices; tables such as safeSet/htmlSafeSet/hex are immutable).",
 			NotDecided:  "equivalence with the standard library over all Go values and types (reflection-driven, value-level); Decoder/Encoder stream behaviour; round-trip of strings; the scanner's language (R-SCAN, added when built).",
 			Trusted:     commonTrusted, Assumptions: commonAssumptions,
 		},
